@@ -61,12 +61,29 @@ Ignored(sc, f) ==
 
 DefaultGlob(f) == f.ext \in {"lua", "luau"}
 
+(* ---- -g / --glob lists (README "Glob Filtering"): the same pattern language read the other way round - a plain *)
+(* pattern selects, `!pattern` excludes, the last matching pattern decides, and a file matched by no pattern is  *)
+(* selected only when the list holds no selecting pattern at all.  kind "under" = `<dir>/**`.  An excluded        *)
+(* directory (`!vendor/`) takes everything below it out.  With no list the default globs apply.                  *)
+GlobMatches(pat, f) ==
+  CASE pat.k = "under" -> Len(f.dir) >= 1 /\ f.dir[1] = pat.v
+    [] pat.k = "dir"   -> FALSE                       \* matches directories only; see GlobDirExcluded
+    [] OTHER           -> PatMatches(pat, f, <<>>)
+GlobDirExcluded(gs, f) == \E i \in DOMAIN gs : gs[i].k = "dir" /\ gs[i].neg /\ PatMatches(gs[i], f, <<>>)
+GlobOK(sc, f) ==
+  LET gs == IF "globs" \in DOMAIN sc THEN sc.globs ELSE <<>> IN
+  IF gs = <<>> THEN DefaultGlob(f)
+  ELSE IF GlobDirExcluded(gs, f) THEN FALSE
+  ELSE LET ms == {i \in DOMAIN gs : GlobMatches(gs[i], f)} IN
+       IF ms = {} THEN \A i \in DOMAIN gs : gs[i].neg
+       ELSE LET last == CHOOSE i \in ms : \A j \in ms : j <= i IN ~gs[last].neg
+
 (* an argument: [kind |-> "dir"|"file", path, dir (components)] *)
 UnderDir(f, a) == IsPrefix(a.dir, f.dir)
 SelectedBy(sc, f, a) ==
   IF a.kind = "file"
-  THEN a.path = f.path /\ (sc.respect => (~Ignored(sc, f) /\ DefaultGlob(f)))
-  ELSE /\ UnderDir(f, a) /\ DefaultGlob(f) /\ ~Ignored(sc, f)
+  THEN a.path = f.path /\ (sc.respect => (~Ignored(sc, f) /\ GlobOK(sc, f)))
+  ELSE /\ UnderDir(f, a) /\ GlobOK(sc, f) /\ ~Ignored(sc, f)
        /\ (sc.allow_hidden \/ ~Hidden(f, a.dir))
 Selected(sc, f) == \E i \in DOMAIN sc.args : SelectedBy(sc, f, sc.args[i])
 
@@ -86,10 +103,15 @@ IgnoredBelow(sc, f, depth) ==
   LET dsrc == IF IsPrefix(<<"src">>, f.dir) THEN DecideBelow(sc.ig_src, f, <<"src">>, depth) ELSE "none"
       droot == DecideBelow(sc.ig_root, f, <<>>, depth)
   IN dsrc = "ignore" \/ (dsrc = "none" /\ droot = "ignore")
+(* the same tolerance for a directory excluded by a `!dir/` glob and then named explicitly *)
+GlobOKBelow(sc, f, depth) ==
+  LET gs == IF "globs" \in DOMAIN sc THEN sc.globs ELSE <<>>
+      rest == SelectSeq(gs, LAMBDA g : ~(g.k = "dir" /\ g.neg /\ ~PatMatchesBelow(g, f, <<>>, depth)))
+  IN GlobOK([sc EXCEPT !.globs = IF rest = <<>> /\ gs # <<>> THEN <<[k |-> "dir", v |-> "?", neg |-> TRUE]>> ELSE rest], f)
 MaybeSelected(sc, f) ==
   \E i \in DOMAIN sc.args :
      LET a == sc.args[i] IN
-     a.kind = "dir" /\ UnderDir(f, a) /\ DefaultGlob(f) /\ (sc.allow_hidden \/ ~Hidden(f, a.dir))
+     a.kind = "dir" /\ UnderDir(f, a) /\ GlobOKBelow(sc, f, Len(a.dir)) /\ (sc.allow_hidden \/ ~Hidden(f, a.dir))
      /\ ~IgnoredBelow(sc, f, Len(a.dir))
 MaybeSet(sc) == {f.path : f \in {g \in Universe : MaybeSelected(sc, g)}}
 SelectedSet(sc) == {f.path : f \in {g \in Universe : Selected(sc, g)}}
